@@ -10,7 +10,7 @@ namespace EAO
 theorem sum_map_add {α} (l : List α) (f g : α → Rat) :
     (l.map fun a => f a + g a).sum = (l.map f).sum + (l.map g).sum := by
   induction l with
-  | nil => simp
+  | nil => simp; grind
   | cons a l ih => simp only [List.map_cons, List.sum_cons, ih]; grind
 
 theorem sum_map_neg {α} (l : List α) (f : α → Rat) :
@@ -46,11 +46,14 @@ theorem sum_range_indicator (n j0 : Nat) (h : j0 < n) (v : Rat) :
 
 /-! ### regrouping by step -/
 
+set_option linter.unusedSimpArgs false in
 theorem sum_steps_lt (L : List MapRow) (f : MapRow → Rat) (T : Nat) :
     ((List.range T).map fun t => ((L.filter fun m => m.step == t).map f).sum).sum
       = ((L.filter fun m => decide (m.step < T)).map f).sum := by
   induction T with
-  | zero => simp
+  | zero =>
+    have : List.filter (fun m : MapRow => decide (m.step < 0)) L = [] := by simp
+    rw [this]; simp
   | succ T ih =>
     rw [List.range_succ, List.map_append, List.sum_append, ih]
     simp only [List.map_cons, List.map_nil, List.sum_cons, List.sum_nil]
@@ -83,5 +86,90 @@ theorem sum_steps_all (L : List MapRow) (f : MapRow → Rat) (T : Nat) (hL : ∀
   apply List.filter_eq_self.mpr
   intro m hm
   simp [hL m hm]
+
+/-! ### first rows per variable -/
+
+/-- the sum of a function of the variable over the first rows equals the sum over the variables of
+    the block `[off, off+n)` that occur in `M` and are not yet `seen` -/
+theorem firstRows_sum (g : Nat → Rat) (off n : Nat) (M : List MapRow) (seen : List Nat)
+    (hM : ∀ m ∈ M, ∃ j, j < n ∧ m.var = off + j) :
+    ((firstRows M seen).map fun m => g m.var).sum
+      = ((List.range n).map fun j =>
+          if (off + j) ∉ seen ∧ (off + j) ∈ M.map (·.var) then g (off + j) else 0).sum := by
+  induction M generalizing seen with
+  | nil => simp [firstRows, sum_map_zero]
+  | cons m M ih =>
+    have hM' : ∀ m' ∈ M, ∃ j, j < n ∧ m'.var = off + j := fun m' hm' => hM m' (by simp [hm'])
+    obtain ⟨j0, hj0, hv⟩ := hM m (by simp)
+    unfold firstRows
+    by_cases hs : seen.contains m.var = true
+    · rw [if_pos hs, ih seen hM']
+      congr 1
+      apply List.map_congr_left
+      intro j _
+      have hmem : m.var ∈ seen := by simpa using hs
+      by_cases hjs : off + j ∈ seen
+      · simp [hjs]
+      · have hne : ¬ off + j = m.var := fun h => hjs (h ▸ hmem)
+        simp [hjs, hne]
+    · rw [if_neg hs]
+      simp only [List.map_cons, List.sum_cons]
+      rw [ih (m.var :: seen) hM']
+      have hmem : m.var ∉ seen := by simpa using hs
+      rw [← sum_range_indicator n j0 hj0 (g m.var), ← sum_map_add]
+      congr 1
+      apply List.map_congr_left
+      intro j _
+      by_cases hj : j = j0
+      · subst hj
+        simp [← hv, hmem]
+        grind
+      · have hne : ¬ off + j = m.var := by omega
+        simp [hj, hne]
+        grind
+
+/-- with nothing seen, and `g` vanishing on the variables of the block without a row, the sum over
+    the first rows is the sum over the whole block -/
+theorem firstRows_sum_block (g : Nat → Rat) (off n : Nat) (M : List MapRow)
+    (hM : ∀ m ∈ M, ∃ j, j < n ∧ m.var = off + j)
+    (hz : ∀ j, j < n → (∀ m ∈ M, m.var ≠ off + j) → g (off + j) = 0) :
+    ((firstRows M []).map fun m => g m.var).sum = ((List.range n).map fun j => g (off + j)).sum := by
+  rw [firstRows_sum g off n M [] hM]
+  congr 1
+  apply List.map_congr_left
+  intro j hj
+  by_cases h : (off + j) ∈ M.map (·.var)
+  · simp [h]
+  · have : g (off + j) = 0 := by
+      apply hz j (List.mem_range.mp hj)
+      intro m hm hmv
+      exact h (List.mem_map.mpr ⟨m, hm, hmv⟩)
+    simp [h, this]
+
+/-! ### `costAt` -/
+
+theorem costAt_append' (c₁ c₂ : List Rat) (off : Nat) (x : Vec) :
+    costAt (c₁ ++ c₂) off x = costAt c₁ off x + costAt c₂ (off + c₁.length) x := by
+  induction c₁ generalizing off with
+  | nil => simp [costAt]; grind
+  | cons c cs ih =>
+    simp only [List.cons_append, costAt, ih, List.length_cons]
+    have : off + 1 + cs.length = off + (cs.length + 1) := by omega
+    rw [this]
+    grind
+
+theorem costAt_eq_sum_range (c : List Rat) (off : Nat) (x : Vec) :
+    costAt c off x = ((List.range c.length).map fun j => c.getD j 0 * x (off + j)).sum := by
+  induction c generalizing off with
+  | nil => simp [costAt]
+  | cons c cs ih =>
+    rw [List.length_cons, List.range_succ_eq_map]
+    simp only [costAt, List.map_cons, List.sum_cons, List.map_map, ih]
+    congr 2
+    apply List.map_congr_left
+    intro j _
+    simp only [Function.comp, List.getD_cons_succ]
+    congr 2
+    omega
 
 end EAO
